@@ -318,7 +318,7 @@ func JudgeReclaim(w *World) *Verdict {
 	v := &Verdict{History: h, Findings: EngineFindings(h)}
 	var tot ReclaimFacts
 	for _, rec := range h.Cycles {
-		if rec.Panic != "" || rec.Hung {
+		if rec.Panic != "" || rec.Hung || rec.Starved {
 			continue
 		}
 		fs, f := CheckReclaim(w, rec)
